@@ -246,7 +246,8 @@ impl Decl {
 
 const WORDS: [&str; 10] = ["Get", "Set", "Led", "Adc", "Run", "Stop", "Item", "Mode", "Pin", "Log"];
 // two names start with `h`: their generated short option is `-h`, which only a build without the help facility can use
-const FIELD_NAMES: [&str; 14] = ["alpha", "beta", "gamma", "delta", "eps", "zeta", "eta", "theta", "iota_x", "kappa_y", "lam", "mu_nu_xi", "host", "hex_v"];
+// ... and two are not ASCII (Rust identifiers may be): generated long / short / value names derive from them
+const FIELD_NAMES: [&str; 16] = ["alpha", "beta", "gamma", "delta", "eps", "zeta", "eta", "theta", "iota_x", "kappa_y", "lam", "mu_nu_xi", "host", "hex_v", "число", "über_v"];
 // several syllables share their leading octets (é/ê, €/₭, 向/吐, 𐍈/𐍉): names then diverge inside a character
 const NAME_SYL: [&str; 20] = ["a", "b", "c", "d", "g", "s", "t", "é", "ж", "go", "st", "€", "Up", "x_y", "ê", "₭", "向", "吐", "𐍈", "𐍉"];
 
